@@ -11,7 +11,9 @@ for d, _, files in os.walk(acc):
     for f in files:
         if f.endswith(".go"):
             rep[os.path.join(repo, rel, "zz_verif_" + f)] = os.path.join(d, f)
-extra = os.path.join(root, ".build", "overlay-extra-%s.json" % (sys.argv[1] if len(sys.argv) > 1 else ""))
-if os.path.exists(extra):
+# Demonstrations only: VERIF_MUTANT_OVERLAY names an overlay JSON that replaces
+# repository files by deliberately broken copies kept outside /repo.
+extra = os.environ.get("VERIF_MUTANT_OVERLAY", "")
+if extra:
     rep.update(json.load(open(extra))["Replace"])
 json.dump({"Replace": rep}, sys.stdout, indent=1)
